@@ -124,9 +124,27 @@ class SList:
         self.arr = arr
         self.n = n
         self.label = label
+        self.fn = (lambda i: z3.Select(arr, i)) if arr is not None else None
+        self.enum = None
 
     def __repr__(self):
         return f'<SList {self.label} n={self.n}>'
+
+
+class EnumVal:
+    """member of an Enum class of the repository; inside symbolic-length lists it is represented by `code`"""
+
+    def __init__(self, cls, name, value, code):
+        self.cls, self.name, self.value, self.code = cls, name, value, code
+
+    def __repr__(self):
+        return f'{self.cls}.{self.name}'
+
+    def __eq__(self, o):
+        return isinstance(o, EnumVal) and (o.cls, o.name) == (self.cls, self.name)
+
+    def __hash__(self):
+        return hash((self.cls, self.name))
 
 
 class SDict:
